@@ -281,7 +281,13 @@ def _case(root: Path, case: dict) -> dict:
             res["units"].append(u)
         for t in case["targets"]:
             res["stage"] = "generate:" + t
-            gen.generate(t)
+            gen.generate(t, clean=bool(case.get("clean")))
+        for rnd in range(1, case.get("rounds", 1)):
+            # the same configured context again (what the language server does on every save): parse, generate with clean
+            gen = ctx.parse(root / "w" / "m.djinni")
+            for t in case["targets"]:
+                res["stage"] = f"round{rnd + 1}:generate:" + t
+                gen.generate(t, clean=bool(case.get("clean")))
         res["stage"] = "done"
     except ApplicationExceptionList as e:
         res["kind"] = "diags"
@@ -542,6 +548,23 @@ def ns_collision_program(r: random.Random) -> str:
     return "\n".join(out)
 
 
+# a small program for the switches that reach the C++ / JNI glue (quick tier: all of them, every run)
+GLUE_PROGRAM = """
+kind = enum { a_one; b_two; }
+oops = error { plain; with_code(code: i32); }
+namespace deep.er {
+    inner = record { first_field: i32; k: kind; tags: list<string>; } deriving(eq)
+    listener = interface +java { on_event(item: inner, k: kind) -> bool; }
+}
+service = main interface +cpp {
+    get(items: list<deep.er.inner>, one: deep.er.inner?) -> map<string, deep.er.inner>;
+    static create() -> service;
+    risky(l: deep.er.listener) throws oops -> i32;
+    async later(a: i32) -> deep.er.inner;
+}
+callback = function (a: deep.er.inner) -> bool;
+"""
+
 ANN_SOURCES = {
     "ann/lib/NonNull.java": "package ann.lib;\nimport java.lang.annotation.*;\n@Target({ElementType.TYPE_USE})\npublic @interface NonNull {}\n",
     "ann/lib/Nullable.java": "package ann.lib;\nimport java.lang.annotation.*;\n@Target({ElementType.TYPE_USE})\npublic @interface Nullable {}\n",
@@ -578,6 +601,11 @@ FEATURES = {
     "objc.strict-protocols": {"objc": {"strict_protocols": False}},
     "objc.no-string-serialization": {"objc": {"string_serialization": False}},
     "objc.no-prefix": {"objc": {"type_prefix": ""}},
+    # optional settings left at their defaults (the harness's base configuration sets them)
+    "cpp.no-namespace": {"cpp": {"namespace": "__unset__"}},
+    "jni.no-namespace": {"jni": {"namespace": "__unset__"}},
+    "cppcli.no-namespace": {"cppcli": {"namespace": "__unset__"}},
+    "objcpp.no-namespace": {"objcpp": {"namespace": "__unset__"}},
 }
 
 
@@ -585,7 +613,12 @@ def config(r: random.Random | None, features=()):
     v = {"support_lib_sources": True}
     for f in features:
         genrun.front_merge(v, json.loads(json.dumps(FEATURES[f])))
-    return genrun.default_config(variant=v)
+    cfg = genrun.default_config(variant=v)
+    for sect in cfg["generate"].values():
+        if isinstance(sect, dict):
+            for k in [k for k, x in sect.items() if x == "__unset__"]:
+                del sect[k]
+    return cfg
 
 
 def pick_features(r: random.Random):
@@ -618,7 +651,7 @@ def run(ctx):
         r = random.Random(f"{ctx.seed}/c01/{i}")
         fs = pick_features(r)
         cases.append({"name": f"random:{i}", "text": closed_program(r), "expect": None, "config": config(r, fs), "features": fs, "targets": TARGETS,
-                      "judge_sources": (not ctx.quick) or i % 3 == 0})
+                      "judge_sources": (not ctx.quick) or i % 3 == 0, **({"rounds": 2 + i % 2, "clean": True} if i % 4 == 1 else {})})
     # equally named types in different namespaces, C++ target (which separates them by namespace directories)
     for i in range(ctx.n(6, 80)):
         r = random.Random(f"{ctx.seed}/c01/nscoll/{i}")
@@ -630,16 +663,15 @@ def run(ctx):
     # switches that only change Java / Objective-C / C++/CLI text are judged on that target alone (cheap: every run);
     # the ones that reach the C++ or JNI glue need g++ over the whole tree and rotate through the quick tier
     fl = sorted(FEATURES)
-    glue = [f for f in fl if f.startswith(("cpp.", "jni.")) or f in ("java.identifier-styles", "java.cpp-exception", "java.deep-package")]
+    glue = [f for f in fl if f.startswith(("cpp.", "jni.", "cppcli.no-namespace", "objcpp.no-namespace")) or f in ("java.identifier-styles", "java.cpp-exception", "java.deep-package")]
     for f in fl:
         r = random.Random(f"{ctx.seed}/c01/feature/{f}")
         if f in glue:
-            if ctx.quick and f not in [glue[(ctx.seed * 5 + k) % len(glue)] for k in range(3)]:
-                continue
             targets = TARGETS
         else:
             targets = TARGETS if not ctx.quick else [f.split(".")[0]]
-        cases.append({"name": f"feature:{f}", "text": FEATURE_PROGRAM, "expect": None, "config": config(r, [f]), "features": [f], "targets": targets, "judge_sources": True})
+        cases.append({"name": f"feature:{f}", "text": GLUE_PROGRAM if (ctx.quick and f in glue) else FEATURE_PROGRAM, "expect": None, "config": config(r, [f]), "features": [f], "targets": targets, "judge_sources": True,
+                      **({"rounds": 2, "clean": True} if f in glue else {})})
         if not ctx.quick:
             cases.append({"name": f"feature:{f}:random", "text": closed_program(r), "expect": None, "config": config(r, [f]), "features": [f], "targets": TARGETS, "judge_sources": True})
     for i in range(ctx.n(10, 150)):
@@ -657,7 +689,7 @@ def run(ctx):
         ctx.count(key=c["text"], nontrivial=judged, sample={"name": c["name"], "text": c["text"][:300], "outcome": r["kind"], "judged_files": r.get("cxx_jobs", 0)})
         shape = classify(r["ast"]) if r["ast"] is not None else []
         shape = [x for x in shape if x not in c.get("ignore_shapes", ())]
-        inp = {"m.djinni": c["text"], "config": c["config"], "targets": c["targets"]}
+        inp = {"m.djinni": c["text"], "config": c["config"], "targets": c["targets"], **{k: c[k] for k in ("rounds", "clean") if k in c}}
         failures = []      # (key, what, detail)
         # (a) documented outcome
         if r["kind"] in ("crash", "hang"):
@@ -731,6 +763,7 @@ def run(ctx):
 
 def replay(ctx, body):
     inp = body["input"]
-    (r,) = run_cases(ctx.tmp, [{"name": "replay", "text": inp["m.djinni"], "config": inp["config"], "targets": inp["targets"], "expect": None}])
+    (r,) = run_cases(ctx.tmp, [{"name": "replay", "text": inp["m.djinni"], "config": inp["config"], "targets": inp["targets"], "expect": None,
+                                **{k: inp[k] for k in ("rounds", "clean") if k in inp}}])
     print(json.dumps({k: v for k, v in r.items() if k not in ("ast", "units", "includes", "files")}, indent=1)[:4000])
     return r["kind"] in ("ok", "raised", "diags") and not r["cxx"] and not r["javac"] and not r["markers"] and not r["undefined"]
